@@ -2,8 +2,13 @@
 #[macro_export]
 macro_rules! harness_list {
     ($m:ident) => {
-        $m!(s_reads, 40, scen::s_reads);
-        $m!(s_writes, 40, scen::s_writes);
+        $m!(s_reads_client, 40, scen::s_reads::<0>);
+        $m!(s_reads_snapdata, 40, scen::s_reads::<1>);
+        $m!(s_reads_byparent, 40, scen::s_reads::<2>);
+        $m!(s_reads_byid, 40, scen::s_reads::<3>);
+        $m!(s_writes_newclient, 40, scen::s_writes::<0>);
+        $m!(s_writes_snapshot, 40, scen::s_writes::<1>);
+        $m!(s_writes_addversion, 40, scen::s_writes::<2>);
         $m!(s_exclusive, 40, scen::s_exclusive);
         $m!(s_faults, 40, scen::s_faults);
         $m!(s_blob, 40, scen::s_blob);
